@@ -367,6 +367,82 @@ fn check_obs(c: &ObsCase, ctx: &Ctx) -> Outcome {
     pass(c.obs.len() >= 2, key_of(&(c.k, c.rc, &wins)), classes)
 }
 
+// ---- U is a base, not an ambiguity code: --ambig-mask must leave it alone ----
+
+#[derive(Clone, Debug, Serialize, Deserialize)]
+pub struct UCase {
+    pub k: usize,
+    pub rc: bool,
+    pub reference: Vec<u8>,
+    /// cyclic mask: which T's of the reference are written as U (upper or lower case)
+    pub u_mask: Vec<u8>,
+    pub snps: Vec<(u16, u8)>,
+}
+
+fn u_strategy() -> BoxedStrategy<UCase> {
+    (prop::sample::select(vec![7usize, 9, 15, 17, 31, 33]), any::<bool>(), proptest::collection::vec(0u8..4, 70..220), proptest::collection::vec(0u8..3, 1..7), proptest::collection::vec((any::<u16>(), 0u8..4), 0..4))
+        .prop_map(|(k, rc, reference, u_mask, snps)| UCase { k, rc, reference, u_mask, snps })
+        .boxed()
+}
+
+fn check_u(c: &UCase, ctx: &Ctx) -> Outcome {
+    let dna = gen::bases_to_seq(&c.reference);
+    if dna.len() < c.k + 2 {
+        return Outcome::Reject("short".into());
+    }
+    // the reference as RNA-style text: some T's written U or u
+    let mut rna = dna.clone();
+    let mut n_u = 0;
+    for (i, b) in rna.iter_mut().enumerate() {
+        if *b == b'T' {
+            match c.u_mask[i % c.u_mask.len()] {
+                1 => { *b = b'U'; n_u += 1; }
+                2 => { *b = b'u'; n_u += 1; }
+                _ => {}
+            }
+        }
+    }
+    // one sample: the reference with a few substitutions (plain DNA letters, no ambiguity anywhere)
+    let mut smp = dna.clone();
+    for (ps, b) in &c.snps {
+        let p = gen::idx(*ps, smp.len());
+        smp[p] = model::BASES[*b as usize & 3];
+    }
+    let dir = ctx.case_dir();
+    let r: Result<bool, Outcome> = (|| {
+        cli::write_fasta(&dir.join("ref.fa"), &["rna_ref".to_string()], &[rna.clone()], None);
+        must_ok(&build(ctx, &dir, "x", &[("smp".to_string(), vec![smp.clone()])], c.k, c.rc, 1), "ska build")?;
+        let plain = cli::run_ska(ctx, &dir, &["map", "ref.fa", "x.skf"]);
+        let masked = cli::run_ska(ctx, &dir, &["map", "ref.fa", "x.skf", "--ambig-mask"]);
+        for o in [&plain, &masked] {
+            if let Some(e) = o.infra() {
+                return Err(Outcome::Infra(e));
+            }
+        }
+        if plain.ok() != masked.ok() {
+            return Err(Outcome::Fail(format!("ska map succeeds {} without and {} with --ambig-mask", plain.ok(), masked.ok())));
+        }
+        if !plain.ok() {
+            return Ok(false);
+        }
+        // repeats inside the sample can still produce ambiguity codes (or N): such cases say nothing about U
+        let body: Vec<u8> = plain.out_str().lines().filter(|l| !l.starts_with('>')).flat_map(|l| l.bytes().collect::<Vec<u8>>()).collect();
+        if body.iter().any(|b| !matches!(b.to_ascii_uppercase(), b'A' | b'C' | b'G' | b'T' | b'U' | b'-')) {
+            return Err(Outcome::Reject("the sample itself yields an ambiguity code".into()));
+        }
+        if plain.stdout != masked.stdout {
+            return Err(Outcome::Fail(format!("--ambig-mask changes the mapped alignment although neither the reference (A/C/G/T/U) nor the sample holds an ambiguity code:\n  without: {}\n  with:    {}", plain.out_str().replace('\n', " "), masked.out_str().replace('\n', " "))));
+        }
+        Ok(n_u > 0)
+    })();
+    ctx.done(&dir);
+    match r {
+        Err(Outcome::Fail(m)) => Outcome::Fail(format!("k={} rc={} reference={} sample={}: {m}", c.k, c.rc, lossy(&rna), lossy(&smp))),
+        Err(o) => o,
+        Ok(nt) => pass(nt, key_of(&(c.k, c.rc, &rna, &smp)), vec![if nt { "reference_with_U" } else { "no_U_or_nothing_maps" }]),
+    }
+}
+
 // ---- the weights in use: pairwise distances over tables with ambiguity codes
 
 fn weight_overlap(a: u8, b: u8) -> f64 {
@@ -519,6 +595,15 @@ fn stages(tier: Tier) -> Vec<Box<dyn Stage>> {
             || table_case_strategy(8, 30, true),
             check_weights_cli,
             |c| json!({"k": c.k, "rows": c.table().rows.values().take(8).map(|r| lossy(r)).collect::<Vec<_>>()}),
+        ),
+        gen_stage_show(
+            "u_is_not_ambiguous",
+            "generated: a reference of 70-220 bases in which some T's are written U or u, one sample = the reference as DNA with 0-3 substitutions (no ambiguity code anywhere), k in {7,9,15,17,31,33}, both strand modes; ska map with and without --ambig-mask. Cases in which the unmasked output already shows an ambiguity code or N (repeats inside the sample) are rejected and counted. Oracle (metamorphic): identical output - masking concerns ambiguity codes only, and U is a base. Non-trivial: the reference contains a U and something maps.",
+            tier.pick(400, 6000),
+            100,
+            u_strategy,
+            check_u,
+            |c| json!({"k": c.k, "two_strand": c.rc, "reference_len": c.reference.len(), "snps": c.snps.len()}),
         ),
     ]
 }
